@@ -30,10 +30,12 @@ func C08_reply_exact() {
 	dst := &vDst{failAt: -1}
 	h := ws.Header{Fin: true, OpCode: op, Length: int64(n), Masked: server}
 	var err error
+	consumed := -1
 	switch vChoose("entry", 4) {
 	case 0: // ControlHandler with plain source
 		src := vNewSrc(append([]byte{}, payload...), vChoose("mode", 2), "chunk")
 		err = ControlHandler{Src: &src, Dst: dst, State: st, DisableSrcCiphering: true}.Handle(h)
+		consumed = src.pos
 	case 1: // ControlHandler un-ciphering a masked source itself (server side only)
 		if !server {
 			vAssume(false)
@@ -51,6 +53,10 @@ func C08_reply_exact() {
 	case 3:
 		err = HandleControlMessage(dst, st, Message{OpCode: op, Payload: payload})
 		vAssert(vEqBytes(payload, keep), "reply.message_payload_intact")
+	}
+	if consumed >= 0 && err == nil {
+		// the frame's payload has been taken from the source, so the stream stays in step
+		vAssert(consumed == n, "reply.source_payload_consumed")
 	}
 	fs, ok := vParseFrames(dst.all)
 	vAssert(ok, "reply.whole_frames")
